@@ -401,6 +401,18 @@ def run(ctx, res):
         res.count("vector_path")
         if f:
             res.violation("CosmoLikelihood.likelihood:vector-path-not-sum-of-lenses", f, {"vector_path": True, "seed": vseed})
+    for t in range(ctx.n(16, 120)):
+        rseed = rng.randrange(2 ** 31)
+        try:
+            f = redraw_locality_oracle(rseed)
+        except Exception as e:  # noqa
+            res.notes.append("re-draw locality check failed to run: %r" % (e,))
+            res.count("redraw_locality_failed_to_run")
+            continue
+        res.evaluations += 1
+        res.count("redraw_locality")
+        for x in f:
+            res.violation("LensLikelihood:inapplicable-lambda-after-redraw", x, {"redraw_locality": True, "seed": rseed})
     if ctx.search_mode:
         return
     outs = run_driver(lines)
@@ -479,6 +491,56 @@ def cosmo_additive(rng):
     return None
 
 
+def redraw_locality_oracle(seed):
+    """a hyper-parameter that does not apply to a lens never changes its term — also when the population draws of the
+    lens fall outside the interpolation grid and are re-drawn: a lens with an inner-slope / mass-to-light axis, the mean
+    near the edge of the grid and a wide scatter; same seed, only the inapplicable lambda (lambda_ifu for a lens that is
+    not so flagged, lambda_mst for one that is) and its scatter changed"""
+    import random
+    from hierarc.Likelihood.hierarchy_likelihood import LensLikelihood
+    rng = random.Random(seed)
+    ifu = rng.random() < 0.5
+    names = rng.choice([["gamma_in"], ["log_m2l"], ["gamma_in", "log_m2l"]])
+    box = {"gamma_in": (0.5, 2.0), "log_m2l": (0.0, 1.0)}
+    axes = [np.linspace(box[nm][0], box[nm][1], rng.choice([3, 4, 6])) for nm in names]
+    shape = tuple(len(a) for a in axes)
+    grid = np.array([rng.uniform(0.8, 1.25) for _ in range(int(np.prod(shape)))]).reshape(shape)
+    lt = rng.choice(["DdtDdGaussian", "DsDdsGaussian"])
+    data = (dict(ddt_mean=3000.0, ddt_sigma=150.0, dd_mean=1000.0, dd_sigma=80.0) if lt == "DdtDdGaussian"
+            else dict(ds_dds_mean=2.0, ds_dds_sigma=0.15))
+    lens = LensLikelihood(z_lens=0.5, z_source=1.5, likelihood_type=lt, name="R", mst_ifu=ifu,
+                          lambda_mst_distribution=rng.choice(["NONE", "GAUSSIAN"]),
+                          gamma_in_sampling="gamma_in" in names, gamma_in_distribution="GAUSSIAN",
+                          log_m2l_sampling="log_m2l" in names, log_m2l_distribution="GAUSSIAN",
+                          kin_scaling_param_list=list(names), j_kin_scaling_param_axes=(axes if len(axes) > 1 else axes[0]),
+                          j_kin_scaling_grid_list=[grid], num_distribution_draws=rng.choice([20, 40]), **data)
+    kl = dict(lambda_mst=rng.uniform(0.9, 1.1), lambda_mst_sigma=rng.choice([0.0, 0.03]), lambda_ifu=rng.uniform(0.6, 0.85),
+              lambda_ifu_sigma=rng.choice([0.0, 0.04]), gamma_ppn=rng.uniform(0.9, 1.3))
+    for nm in names:
+        lo, hi = box[nm]
+        kl[nm] = hi - rng.uniform(0.02, 0.15) * (hi - lo) if rng.random() < 0.5 else lo + rng.uniform(0.02, 0.15) * (hi - lo)
+        kl[nm + "_sigma"] = rng.uniform(0.2, 0.5) * (hi - lo)
+    cosmo = lc.FakeCosmo()
+    s0 = rng.randrange(2 ** 30)
+
+    def at(k):
+        np.random.seed(s0)
+        with np.errstate(all="ignore"):
+            return float(np.squeeze(lens.lens_log_likelihood(cosmo, kwargs_lens=dict(k), kwargs_kin={}, kwargs_source={}, kwargs_los=None)))
+    base = at(kl)
+    which = ("lambda_mst", "lambda_mst_sigma") if ifu else ("lambda_ifu", "lambda_ifu_sigma")
+    fails = []
+    for v, sg in ((0.7, 0.0), (1.3, 0.0), (kl[which[0]], 0.11), (1.25, 0.07)):
+        k2 = dict(kl)
+        k2[which[0]], k2[which[1]] = v, sg
+        got = at(k2)
+        if not (got == base or (math.isnan(got) and math.isnan(base))):
+            fails.append("the term of a lens with mst_ifu=%s (%s, axes %s, draws re-drawn at the grid edge) changes from %r to %r when only "
+                         "(%s, %s) = (%r, %r) -> (%r, %r), same seed" % (ifu, lt, names, base, got, which[0], which[1], kl[which[0]], kl[which[1]], v, sg))
+            break
+    return fails
+
+
 def vector_path_oracle(seed):
     """the sample evaluated through the SAMPLING VECTOR (CosmoLikelihood.likelihood(args)) equals the sum of its lenses, each
     evaluated alone with the hyper-parameters that the vector encodes BY NAME — in particular every lens with the
@@ -532,6 +594,9 @@ def replay(ctx, data):
     inp = data["input"]
     if inp.get("vector_path"):
         f = vector_path_oracle(inp.get("seed", 0))
+        return bool(f), str(f)
+    if inp.get("redraw_locality"):
+        f = redraw_locality_oracle(inp.get("seed", 0))
         return bool(f), str(f)
     if inp.get("cosmo_additive"):
         f = cosmo_additive(random.Random(inp.get("seed", 0)))
